@@ -1,4 +1,4 @@
-import Yuiv.Proofs.C11Seq
+import Yuiv.Proofs.C11Term
 /-
 C11 — the parallel pivot search returns an acyclic (triangular) pivot set under every interleaving.
 
@@ -113,15 +113,105 @@ theorem par_invariant_from (s : Str) (hwf : s.WF) (st0 : State) (h0 : GInv s st0
   have hg := run_good s hwf acts st0 h0
   exact ⟨hg.ne_panic, fun st os e => hg.of_ok e⟩
 
-/-! ### non-vacuity: a structure on which two workers race and one has to retry -/
+/-- the fuel of the model's `traverse` loop always suffices, so a `search` step can only be refused because it
+is not enabled (no such task / already chosen / the chosen column is not a candidate) -/
+theorem traverse_terminates (s : Str) (P : Pivs) (w : Worker) : traverse s P w ≠ err :=
+  traverse_ne_err s P w
 
-/-- rows 0..3 over columns 0..3: `[0,1,2] [0,1,3] [1,2,3] [0,2,3]`, every entry a candidate of weight 1 -/
+/-- NO LIVELOCK.  Every step strictly decreases the natural number `measure` (a retry is always caused by
+another worker's commit), hence every schedule accepted by the model from a state satisfying the invariant
+has at most `measure st` steps: the retry loops cannot spin forever. -/
+theorem par_terminates (s : Str) (hwf : s.WF) (st : State) (h : GInv s st) :
+    (∀ a st' o, step s st a = ok (st', o) → measure st' < measure st) ∧
+    (∀ acts st' os, run s st acts = ok (st', os) → acts.length ≤ measure st) :=
+  ⟨fun a st' o hs => step_decreases s hwf st h a st' o hs,
+   fun acts st' os hr => run_length_le s hwf acts st st' os h hr⟩
+
+/-- the code's own choice policy (`choose_candidate`: lightest column by `cmp_cols`) is admissible: the column
+it returns is still marked `Candidate` — so the deterministic code is one of the schedules covered above -/
+theorem policy_admissible (s : Str) (w : Worker) (j : Nat) (h : chooseCandidate s w = some j) :
+    w.isCandidate j = true := by
+  have := chooseCandidate_cand h
+  simp [Worker.isCandidate, this]
+
+/-! ### triangular orders, `top_sort`, the checkers applied to the real code's output -/
+
+/-- an acyclic pivot set with distinct columns admits an order in which the leading block of the permuted
+matrix is triangular: the row of a later pivot has no entry in the column of an earlier pivot (and the
+pivots themselves sit on the diagonal since `isCand` entries are entries) -/
+theorem acyclic_triangular (s : Str) (S : Pivs) (h : PInv s S) :
+    ∃ L, L.Perm S ∧ Triangular s L ∧ ∀ p ∈ L, isCand s p.1 p.2 = true := by
+  obtain ⟨L, hp, ht⟩ := acyclic_triangular_core s S h.cols h.acyc
+  exact ⟨L, hp, ht, fun p hpL => h.cand p (hp.mem_iff.1 hpL)⟩
+
+/-- conversely a triangular order witnesses acyclicity -/
+theorem triangular_is_acyclic (s : Str) (L : Pivs) (hc : (L.map (·.2)).Nodup) (ht : Triangular s L) :
+    Acyclic s L := triangular_acyclic s L hc ht
+
+/-- Kahn's algorithm (`yui::algo::top_sort`) on the dependency graph of an invariant table, for EVERY
+iteration order `keys` of the hash map: `top_sort(..).unwrap()` and `row_for(j).unwrap()` in `result()` do not
+panic, and the returned list is a permutation of the table in a triangular order -/
+theorem kahn_complete (s : Str) (hwf : s.WF) (S : Pivs) (h : PInv s S) (keys : List Nat)
+    (hk : keys.Perm (S.map (·.2))) :
+    ∃ L, result s S keys = ok L ∧ L.Perm S ∧ Triangular s L :=
+  result_spec s hwf S h keys hk
+
+/-- END TO END (model): sequential phases, then ANY schedule of the parallel phase that ends with no task in
+flight, then `result()` with any hash order: no panic anywhere, and the returned list has distinct rows,
+distinct columns, candidate entries only, and is a triangular order. -/
+theorem find_pivots_correct (s : Str) (hwf : s.WF) (st0 : State) (h0 : initState s = ok st0)
+    (acts : List Act) (st : State) (os : List Outcome) (hr : run s st0 acts = ok (st, os))
+    (keys : List Nat) (hk : keys.Perm (st.S.map (·.2))) :
+    ∃ L, result s st.S keys = ok L ∧ PInv s L ∧ Triangular s L := by
+  have hg0 : GInv s st0 := (initState_good s hwf).of_ok h0
+  have hg : GInv s st := (run_good s hwf acts st0 hg0).of_ok hr
+  obtain ⟨L, hL, hp, ht⟩ := result_spec s hwf st.S hg.pinv keys hk
+  refine ⟨L, hL, ?_, ht⟩
+  have hp' : st.S.Perm L := hp.symm
+  exact hg.pinv.perm hp'
+
+/-- soundness of the decidable checker the driver applies to the list returned by the REAL `find_pivots`
+(and to the model's own `result`): distinct rows/columns, candidate entries, triangular, hence acyclic -/
+theorem checkPivots_correct (s : Str) (L : List (Nat × Nat)) (h : checkPivots s L = true) :
+    PInv s L ∧ Triangular s L := checkPivots_sound s L h
+
+/-- soundness of the checker the driver applies to the table the REAL code reports after its sequential
+phases: it satisfies the global invariant, so `par_invariant_from` covers every replayed trace from there -/
+theorem checkInit_correct (s : Str) (S : Pivs) (h : checkInit s S = true) :
+    GInv s ⟨S, remainRows s S, []⟩ := checkInit_ginv s S h
+
+/-- soundness of the well-formedness check the driver applies to every structure it receives -/
+theorem wfB_correct (s : Str) (h : s.wfB = true) : s.WF := Str.wfB_sound s h
+
+/-! ### non-vacuity -/
+
+/-- rows `[0] [1,2] [0,2] [0,2]` over 3 columns, all entries candidates of weight 1.  The sequential phases
+take `(0,0)` and `(1,1)`; rows 2 and 3 go to the parallel phase and both head for column 2: whoever validates
+second must retry (trace `started 2, started 2, candidate 2, candidate 2, commit, retry, candidate none`).
+The same matrix is in the hand-written corpus of the harness (`c11.rs`, "two rows racing for one column"). -/
 def exStr : Str :=
-  match Str.build 4 4 [(0,0,1,true), (1,0,1,true), (3,0,1,true), (0,1,1,true), (1,1,1,true), (2,1,1,true),
-    (0,2,1,true), (2,2,1,true), (3,2,1,true), (1,3,1,true), (2,3,1,true), (3,3,1,true)] with
+  match Str.build 4 3 [(0,0,1,true), (2,0,1,true), (3,0,1,true), (1,1,1,true), (1,2,1,true), (2,2,1,true),
+    (3,2,1,true)] with
   | ok s => s
   | _ => default
 
-example : (∀ i ∈ List.range 4, (colsIn exStr i).Pairwise (· < ·)) := by decide
+/-- the hypothesis `s.WF` of the theorems above is satisfiable by a structure with racing rows -/
+example : exStr.WF := wfB_correct exStr (by decide)
+
+/-- … and so is `initState s = ok st0` (the sequential phases never panic on a well-formed structure and
+contain no fuel), after which `GInv` holds and `par_invariant` applies to every schedule -/
+example : ∃ st0, initState exStr = ok st0 ∧ GInv exStr st0 := by
+  have hwf : exStr.WF := wfB_correct exStr (by decide)
+  have hg := initState_good exStr hwf
+  cases h : initState exStr with
+  | ok st0 => exact ⟨st0, rfl, hg.of_ok h⟩
+  | err => exact absurd h (initState_ne_err exStr)
+  | panic => exact absurd h hg.ne_panic
+
+/-- the hypotheses of `commit_acyclic` are satisfiable: table `[(0,0)]` on `exStr`, committing `(1,1)` with
+mark set `{1, 2}` (the columns of row 1; column 0 is not reached) -/
+example : Acyclic exStr ([(0, 0)] ++ [(1, 1)]) :=
+  commit_acyclic exStr [(0, 0)] 1 1 (fun j => j = 1 ∨ j = 2)
+    ⟨fun _ => 0, by simp⟩ (by decide) (by decide) (by decide) (by decide)
 
 end Yuiv.C11
